@@ -95,6 +95,10 @@ PROP = {'drive': ['Cff'], 'modules': ['SfntV.Props.C13'],
                  'the unrepaired writer wrapped such deltas into int16 (repaired in e13ef76, witness C13_blue_deltas_unrepaired_wrap). '
                  'Widths: all-large multisets (65534..2*10^6, negative too, spread '
                  'within 32767 of the nominal width) round-trip through cff.file.rt although C13_width_recovered is stated for |w| <= 32767',
+                 'round-7 fixed family: integral UnderlinePosition/Thickness at and beyond the int32 range (+-2^31, 3e9, -5e9, 1e10, 1e15; '
+                 'values of at most nine digits, written as reals), CID fonts and FDSelect tables with 1023..1026 (3000 in the section '
+                 'streams and in thorough) glyphs in format 0 and format 3, INDEX data of exactly 254/255/256 and 65534/65535/65536 bytes '
+                 'in one and two objects, font names of 254/255/256 bytes (Name INDEX data exactly 255)',
                  'encodings with 250..256 codes (contiguous, scrambled, partly ranged, range counts 1..256 around 127/128/129 and 255, '
                  'supplements) are a fixed boundary family: D cff.encoding.rt on the real code, V against the model, whole fonts with 255/256 '
                  'encoded glyphs; 256 glyphs in 256 ranges are refused by encodeEncoding (neither format can hold them), verdict only',
